@@ -186,6 +186,19 @@ def fl2q(x):
     return Fraction(float(x))
 
 
+def f2s(x):
+    """wire form of a float computed by the implementation: exact rational, or a token for non-finite values"""
+    try:
+        x = float(x)
+    except Exception:
+        return "nonfloat:" + type(x).__name__
+    if x != x:
+        return "nan"
+    if x in (float("inf"), float("-inf")):
+        return "inf" if x > 0 else "-inf"
+    return q2s(Fraction(x))
+
+
 # --------------------------------------------------------------------------------------------
 # forked execution of cases against the real code (PyRates keeps module-level state)
 # --------------------------------------------------------------------------------------------
